@@ -50,11 +50,13 @@ template <class K> static Adapter* mk_ms() {
 }
 template <class K, unsigned E, unsigned P> static Adapter* mk_ram() { return mkU<xenium::ramalhete_queue<typename K::T, xp::reclaimer<R>, xp::entries_per_node<E>, xp::pop_retries<P>>, K>(); }
 template <class K, unsigned E, unsigned P> static Adapter* mk_nik() { return mkU<xenium::nikolaev_queue<typename K::T, xp::reclaimer<R>, xp::entries_per_node<E>, xp::pop_retries<P>>, K>(); }
+#ifndef XV_NO_KF
 template <class K> static Adapter* mk_kf(const Case& c) {
   using Q = xenium::kirsch_kfifo_queue<typename K::T, xp::reclaimer<R>>;
   QSpec sp; sp.k = c.geti("k", 2); sp.empty_below = sp.k;
   return new QueueAdapter<Q, K, UOps<Q, K>>([](const Case& cc) { return new Q((uint64_t)cc.geti("k", 2)); }, sp);
 }
+#endif
 template <class K> static Adapter* mk_kfb(const Case& c) {
   using Q = xenium::kirsch_bounded_kfifo_queue<typename K::T>;
   QSpec sp; sp.k = c.geti("k", 2); sp.empty_below = sp.k; long segs = c.geti("segs", 2); sp.cap = sp.k * segs; sp.full_min = (segs - 1) * sp.k + 1;
@@ -79,7 +81,9 @@ static Adapter* make() {
   if (q == "ms") return e == "obj" ? mk_ms<KObj>() : (e == "uptr" ? mk_ms<KUptr>() : mk_ms<KInt>());
   if (q == "nik") return e == "obj" ? nik_sizes<KObj>(epn, ret) : (e == "uptr" ? nik_sizes<KUptr>(epn, ret) : nik_sizes<KInt>(epn, ret));
   if (q == "ram") return e == "uptr" ? ram_sizes<KUptr>(epn, ret) : (e == "small" ? ram_sizes<KSmall>(epn, ret) : ram_sizes<KPtr>(epn, ret));
+#ifndef XV_NO_KF
   if (q == "kf") return e == "uptr" ? mk_kf<KUptr>(g_case) : mk_kf<KPtr>(g_case);
+#endif
   return e == "uptr" ? mk_kfb<KUptr>(g_case) : mk_kfb<KPtr>(g_case);
 }
 int main(int argc, char** argv) {
